@@ -170,6 +170,7 @@ func vfSeqChunk(t *testing.T, w *bufio.Writer, rng *rand.Rand, name string, nops
 		if ev.Ret.K == "" {
 			ev.Ret.K = "none"
 		}
+		ev.Locked, ev.IntLock = true, true // not observable on the unmodified package
 		b, err := json.Marshal(ev)
 		if err != nil {
 			t.Fatal(err)
